@@ -60,6 +60,7 @@ int main(int argc, char** argv) {
   if (argc < 3) return 2;
   uint32_t v0 = (uint32_t)strtoull(argv[1], NULL, 10);
   vh_parse(argv[2]);
+  VH_DIRTY(lock_obj);
   fiber_spinlock_init(&lock_obj);
   fiber_spinlock_internal_t init;
   init.counters.ticket = v0;
